@@ -14,7 +14,8 @@ from vt import core, dsw, gen, build as B
 
 PROP = 'C24'
 RULE = ('L1: 7 crossing configurations (equal/unequal sizes and preambles) x 3 modes x 3 alignments x constraint menu x rcc; L2/L3: every inner '
-        'block of the Repeat stratum x combinator constraints x MinimumTrials; L4: single-block stratum S1 (quick: stratified core). '
+        'block of the Repeat stratum x combinator constraints x MinimumTrials, plus inner blocks with an Exclude of their own and single-/two-crossing '
+        'MultiCrossBlocks under each alignment with an uncrossed Transition; L4: single-block stratum S1 (quick: stratified core). '
         'states = sequences compared on both sides; non-trivial = both sides constructed and >= 2 sequences.')
 ASSUMPTIONS = ['none beyond the law text (differential check); designs with <= CAP sequences']
 BUDGET_S = {'quick': 60, 'thorough': 300}
@@ -52,6 +53,34 @@ def law_items(tier, seed):
         rep = {'op': 'repeat', 'block': inner, 'constraints': []}
         mer = {'op': 'merge', 'blocks': [inner], 'constraints': []}
         out.append({'law': 'L3', 'factors': fs, 'sides': [rep, mer, inner], 'tier': tier})
+    # L2 / L3 on inner blocks with constraints of their own that change the crossing (Exclude), and on single- and two-crossing
+    # MultiCrossBlocks whose alignment is not the default (an uncrossed Transition makes the unified preamble longer than the
+    # crossing's own)
+    A = gen.basic('A', 2); Bf = gen.basic('B', 2); C3 = gen.basic('C', 3)
+    fm0 = {'A': A, 'B': Bf, 'C': C3}
+    TB = gen.window('TB', ['B'], fm0, 2, gen.same, kind='transition', start=1)
+    mt = lambda k: [{'c': 'MinimumTrials', 'k': k}]
+    pool = []
+    for ex in ([{'c': 'Exclude', 'factor': 'C', 'level': 'c2'}], [{'c': 'Exclude', 'factor': 'A', 'level': 'a1'}]):
+        for cr in (['A', 'C'], ['C'], ['A']):
+            pool.append(([A, Bf, C3], gen.cross(['A', 'B', 'C'], cr, ex, False), True))
+    for al in ('post preamble', 'parallel start', 'equal preamble'):
+        for mode in ('repeat', 'weight'):
+            for cs in ([], mt(3), mt(5)):
+                pool.append(([A, Bf, TB], {'op': 'multi', 'design': ['A', 'B', 'TB'], 'crossings': [['A']], 'constraints': cs, 'rcc': True,
+                                           'mode': mode, 'alignment': al}, al == 'equal preamble'))
+            pool.append(([A, Bf, TB], {'op': 'multi', 'design': ['A', 'B', 'TB'], 'crossings': [['A'], ['TB']], 'constraints': [], 'rcc': True,
+                                       'mode': mode, 'alignment': al}, al == 'equal preamble'))
+    for fs, inner, l2 in pool:
+        sides = [{'op': 'repeat', 'block': inner, 'constraints': []}, {'op': 'merge', 'blocks': [inner], 'constraints': []}, inner]
+        if len(inner.get('crossings', [])) > 1:
+            sides = sides[1:]      # documented: Repeat needs equal preambles when the block has several crossings
+        out.append({'law': 'L3', 'factors': fs, 'sides': sides, 'tier': tier})
+        if l2:
+            for cs in (mt(5), [{'c': 'AtMostKInARow', 'k': 1, 'factor': 'B', 'level': 'b0'}]):
+                out.append({'law': 'L2', 'factors': fs, 'sides': [{'op': 'repeat', 'block': inner, 'constraints': cs},
+                                                                   {'op': 'merge', 'blocks': [inner], 'constraints': cs, 'mode': 'repeat',
+                                                                    'alignment': 'equal preamble'}], 'tier': tier})
     # H: the laws must not depend on what was built before in the same process (default arguments are shared objects):
     # first build Merge / Nest of a CONSTRAINED block with every argument at its default, then check L3 on an unconstrained block
     A = gen.basic('A', 2); Bf = gen.basic('B', 2); O = gen.basic('O', 2)
